@@ -31,8 +31,7 @@ REAL = common.REAL_ALL
 STUBS = common.STUBS_ALL
 INTERLEAVING_MEASURE = 'distinct (history length, horizon, notation class) tuples'
 PROBES = ['horizon_gt_3', 'sibling_horizons_differ', 'explicit_units', 'no_future_operator', 'past_above_future', 'next_used', 'modular_specification']
-ENVELOPE_RULES = ['memory-past-above-delayed: a memoryful past operator (rise fall prev s_prev once historically since, bounded or '
-                  'not) above a sub-formula with horizon > 0 (known finding F08)',
+ENVELOPE_RULES = ['memory-past-above-delayed (F08), narrowed: only a past operator with UNBOUNDED memory (once, historically, since) above a sub-formula with horizon > 0 is excluded; with bounded memory m (prev/s_prev/rise/fall: 1, bounded operators: their upper bound, summed along nesting) the comparison starts m updates after the horizon (common.warmup_extra)',
                   'partial-function-over-delayed: log(x, base) whose operands have different horizons (known finding F08b)']
 
 
@@ -45,7 +44,11 @@ def _memory_above_future(ast):
 
 
 def envelope(sc):
-    return common.warmup_visible(sc['ast'])
+    # F08 with bounded memory is no longer excluded: such formulas are compared from horizon + warmup_extra on (see run)
+    out = [x for x in common.warmup_visible(sc['ast']) if x != 'memory-past-above-delayed']
+    if common.warmup_extra(sc['ast']) == float('inf') or (sc.get('literal') and common.warmup_extra(sc['ast']) > 0):
+        out.append('memory-past-above-delayed')
+    return out
 
 
 def gen(rng, tier):
@@ -136,7 +139,8 @@ def _gen(rng, tier):
             subspecs = subs
     else:
         text = 'out = ' + sg.to_text(ast, sg.Spelling(rng), units.bounds_printer(notation, rng)) + ';'
-    n = int(h) + rng.randint(1, 16 if big else 10) if h != float('inf') else 5
+    ex = common.warmup_extra(ast)
+    n = int(h) + (int(ex) if ex != float('inf') else 0) + rng.randint(1, 16 if big else 10) if h != float('inf') else 5
     data = world.gen_trace(rng, vars_, n)
     return {'vars': vars_, 'ast': ast, 'text': text, 'subspecs': subspecs, 'n': n, 'data': data, 'notation': notation,
             'times': units.stamps(notation, n)}
@@ -183,7 +187,15 @@ def run(sc):
     r.sim_time += n
     expected = []
     hh = int(h)
-    for i in range(hh, n):
+    # inside the region of the open finding F08 the comparison starts once the warm-up outputs have left every operator's
+    # memory (common.warmup_extra); the pinned witness carries 'literal': True and is compared from the horizon on, as the
+    # property says
+    skip = 0 if sc.get('literal') else common.warmup_extra(ast)
+    if skip == float('inf'):
+        skip = n
+    if skip:
+        r.probes['compared_after_warmup_memory'] += 1
+    for i in range(hh + int(skip), n):
         pre = dict((v, data[v][:i + 1]) for v in data)
         try:
             ref = eval_discrete(ast, pre, i + 1)
@@ -250,7 +262,8 @@ def shrinks(sc):
         h = sg.horizon(c['ast'])
         if h == float('inf'):
             continue
-        if c['n'] <= h:
+        ex = common.warmup_extra(c['ast'])
+        if c['n'] <= h + (ex if not c.get('literal') else 0):
             continue
         c['times'] = units.stamps(c['notation'], c['n'])
         c['text'] = None
